@@ -15,7 +15,8 @@ ENGINE = "E3 stack"
 TECHNIQUE = ("deterministic simulation: 1-8 concurrent send_packet calls on the real ControllerApplication (started through connect()/start_network()) against the "
              "reference NCP, which answers each enqueue attempt {OK, busy x3 kinds, refusal} and emits delivery confirmations {success, failure, never, duplicate, "
              "wrong tag, wrong destination, unsolicited, before the enqueue response} at drawn virtual times; caller cancellation at drawn instants; outcomes are "
-             "compared with a reference model and the NCP-side command stream is checked for interleaving")
+             "compared with a reference model and the NCP-side command stream is checked for interleaving"
+             ' The whole-stack soak (dst/soak.py: one ControllerApplication object through several connect/traffic/failure/reconnect epochs) is a further seeded scenario of this check.')
 LEVEL_TEXT = ("seeded search over request mixes (plain / source-routed / extended-timeout / IEEE-addressed unicasts, multicast, broadcast), per-attempt enqueue "
               "statuses, confirmation behaviours, cancellation points and versions {4, 8, 9, 13, 14}, plus a complete sweep of single-request scripts "
               "(enqueue status sequence x confirmation behaviour); virtual time makes the 120 s confirmation timeout and the 0.5/1.0/1.5 s retry spacing exact")
@@ -53,8 +54,8 @@ def plan(tier):
     return {
         "sweeps": sweeps,
         "exhaustive": "versions {4,8,9,13,14} x request kind x enqueue status script {OK; busy,OK; busy,busy,OK; busy x3; refused; busy,refused} x confirmation behaviour, one request at a time",
-        "random": [("random", {}, 2), ("samedest", {}, 1)],
-        "runs": 900 if tier == "quick" else None,
+        "random": [("random", {}, 2), ("samedest", {}, 1), ("soak", {}, 1)],
+        "runs": 1200 if tier == "quick" else None,
         "budget_s": 60 if tier == "quick" else 900,
         "batch": 10,
         "sweep_batch": 2,
@@ -171,6 +172,12 @@ def run_samedest(params, tape, detail=False):
 
 
 def run(scenario, params, tape, detail=False):
+    if scenario == "soak":
+        # the whole-stack soak (dst/soak.py): one application object through several connection epochs with traffic, failures and
+        # reconnects; this check reports the clauses of its own property from it
+        from .. import soak
+
+        return soak.run(params, tape, detail=detail)
     if scenario == "samedest":
         return run_samedest(params, tape, detail)
     V = params["V"] if "V" in params else VERSIONS[tape.draw(len(VERSIONS), "V")]
